@@ -72,7 +72,7 @@ def run(ctx):
     for x in res:
         if not x["ok"]:
             ctx.violation("parameter round trip disagrees with ParamCodec.tla: %s: %s" % (x["id"], x.get("detail")), dict(kind="c16-rt", cases=x.get("case")))
-    if len(res) != len(rt):
+    if len([x for x in res if not x["id"].endswith("/later")]) != len(rt):
         raise Infra("round-trip harness returned %d results for %d cases" % (len(res), len(rt)))
     # (iii) index literals: 32-bit bounds
     idx = [dict(lit="0", accept=True, value="0"), dict(lit="4294967295", accept=True, value="4294967295"), dict(lit="1", accept=True, value="1"),
